@@ -724,7 +724,9 @@ pub fn search_regime_case<S: Fl, C: Cv<S>>(t: &mut Tape, cx: &mut Cx) -> CaseRes
         let h: S = S::q(1, t.pick(&[2i64, 4, 8, 16]));
         let coarse: Vec<(S, P3<S>)> = coarse_t.iter().map(|&u| (u, cv.eval(u))).collect();
         sample!(cx, "{} {} controls={:?} = off {:?} + shape {:?} * 2^{} p={:?} coarse={:?} h={:?} eps={:?}", S::NAME, C::NAME, pl.cp, &off[..C::DIM], pl.m, k[0], p, coarse_t, h, eps);
-        let (tt, pt) = cv.search(p, coarse, h, eps);
+        let shape = t.below(4);
+        cx.label(["coarse-iter-exact-hint", "coarse-iter-filtered", "coarse-iter-from_fn", "coarse-iter-reversed"][shape]);
+        let (tt, pt) = cv.search(p, coarse, h, eps, shape);
         cx.label("direct");
         (tt, pt, coarse_t)
     };
